@@ -63,6 +63,7 @@ class C03(Property):
         'correspondence and oracle only (the model has no backend)',
         'get_odesys(rsys, cstr=True) really builds the default feed map over all substances and hands it to rates(): theorem '
         'default_cstr_feeds_every_substance is about the modelled defaultCstr; the tie is the odesys_cstr correspondence (feed map, rates, rhs)',
+        'integer-dtype numpy arrays and unit-carrying (quantities) concentrations / rate constants give the same values: oracle only',
         'array-valued (batched, mutable) concentrations: per-element equality, unmodified inputs and alias-free results are oracle only',
         'error agreement of the array path (ValueError for an unknown reactant, IndexError for a short conc/rates): modelled, '
         'correspondence only',
@@ -794,7 +795,54 @@ class C03(Property):
         if got2 != gotf:
             return 'ReactionSystem.rates changes when the reaction list is permuted by %s' % c['perm']
         if num != 'float':
-            return self._batched(c, rsys, vars_, cstr, gotf)
+            f = self._batched(c, rsys, vars_, cstr, gotf)
+            if f:
+                return f
+        if num == 'int' and cstr is None and specs and all(x.get('pform', 'plain') == 'plain' for x in specs):
+            return self._int_dtype_and_units(c, specs, conc)
+        return None
+
+    def _int_dtype_and_units(self, c, specs, conc):
+        """integer-dtype numpy arrays, and unit-carrying (quantities) concentrations / rate constants with integer magnitudes:
+        the value is the same as for any other number type"""
+        import numpy as np
+        from chempy import ReactionSystem
+        from chempy.units import default_units as u, to_unitless
+        subst = c['subst']
+        if any(k not in conc for k in subst) or any(abs(v) > 9 for v in conc.values()) or any(abs(kg.frac(x['param'])) > 99 for x in specs):
+            return None
+        pts = [{k: int(conc[k]) + j for k in subst} for j in range(3)]
+        want = [{k: sum(kg.net_of(x, k) * kg.rate_of(x, {a: Fraction(b) for a, b in p.items()}) for x in specs) for k in subst} for p in pts]
+        rsys = ReactionSystem([kg.mk_reaction(x, 'int') for x in specs], self._subst(c, subst), checks=())
+        batch = {k: np.array([p[k] for p in pts], dtype=np.int64) for k in subst}
+        try:
+            rb = rsys.rates(batch, substance_keys=subst)
+        except Exception as e:
+            return 'rates() with integer-dtype numpy concentrations raised %s: %s' % (exc_name(e), str(e)[:80])
+        for k in subst:
+            got = [int(x) for x in np.broadcast_to(rb[k], (3,))]
+            if got != [int(w[k]) for w in want]:
+                return 'rates() with integer-dtype numpy concentrations: d[%s]/dt = %s, expected %s' % (k, got, [int(w[k]) for w in want])
+        # quantities: concentrations in molar, k in molar**(1-order)/second, integer magnitudes
+        qspecs = []
+        for x in specs:
+            order = sum(n for _, n in x['reac'])
+            qspecs.append((x, int(kg.frac(x['param'])) * u.molar ** (1 - order) / u.second))
+        qr = [kg.mk_reaction(x, 'int') for x, _ in qspecs]
+        for r, (_, q) in zip(qr, qspecs):
+            r.param = q
+        qsys = ReactionSystem(qr, self._subst(c, subst), checks=())
+        qbatch = {k: np.array([p[k] for p in pts], dtype=np.int64) * u.molar for k in subst}
+        try:
+            rq = qsys.rates(qbatch, substance_keys=subst)
+        except Exception as e:
+            return 'rates() with unit-carrying integer concentrations and rate constants raised %s: %s' % (exc_name(e), str(e)[:80])
+        for k in subst:
+            v = rq[k]
+            mag = to_unitless(v, u.molar / u.second) if hasattr(v, 'dimensionality') and v.dimensionality else np.asarray(v, dtype=float)
+            got = [float(x) for x in np.broadcast_to(mag, (3,))]
+            if any(not close(g, w[k], 1e-12, 1e-12) for g, w in zip(got, want)):
+                return 'rates() with unit-carrying concentrations: d[%s]/dt = %s M/s, expected %s' % (k, got, [float(w[k]) for w in want])
         return None
 
     def _batched(self, c, rsys, vars_, cstr, scalar):
